@@ -86,6 +86,151 @@ theorem never_attr_error (t : ClassTable) (h : initStaticB t = true) (hk : t.kno
   exact this
 
 
+/-! ## value-level state machine of `CzernyTurnerSpectrometer` -/
+
+section machine
+variable {α : Type} [Add α] [Sub α] [Mul α] [Div α] [Neg α] [Zero α] [One α] [OfScientific α] [NatCast α]
+  [LT α] [LE α] [DecidableLT α] [DecidableLE α]
+
+/-- every stored derived value is the function of the *current* parameters it would be on a fresh instrument -/
+def CTInv (x : CTExt α) (s : CTState α) : Prop :=
+  s.w2p = ctW2P x s.p ∧ s.wavelengths = (ctW2P x s.p).map centres ∧
+  (∀ st, s.settings = some st → spectralSettings x.ceil s.w2p s.p.mbpp = some st) ∧
+  (∀ k, s.kwargs = some k → k = specPipelineNames' s.p.name)
+
+theorem ctInv_fresh (x : CTExt α) (p : CTParams α) : CTInv x (ctFresh x p) := by
+  refine ⟨rfl, rfl, ?_, ?_⟩ <;> intro _ h <;> simp [ctFresh] at h
+
+theorem ctInv_refresh (x : CTExt α) (s : CTState α) (p : CTParams α) (h : CTInv x s) (hn : p.name = s.p.name) :
+    CTInv x (ctRefresh x s p) := by
+  refine ⟨rfl, rfl, ?_, ?_⟩
+  · intro _ h'; simp [ctRefresh] at h'
+  · intro k hk; simp only [ctRefresh] at hk ⊢; rw [hn]; exact h.2.2.2 k hk
+
+theorem ctInv_fill (x : CTExt α) (s : CTState α) (h : CTInv x s) :
+    CTInv x (ctFill x s).1 ∧ (ctFill x s).1.p = s.p ∧ (ctFill x s).1.w2p = s.w2p ∧
+    (ctFill x s).2 = spectralSettings x.ceil (ctW2P x s.p) s.p.mbpp := by
+  unfold ctFill
+  cases hs : s.settings with
+  | some st =>
+    exact ⟨h, rfl, rfl, by rw [← h.1]; exact (h.2.2.1 st hs).symm⟩
+  | none =>
+    cases hq : spectralSettings x.ceil s.w2p s.p.mbpp with
+    | some st =>
+      refine ⟨⟨h.1, h.2.1, ?_, h.2.2.2⟩, rfl, rfl, by rw [← h.1]; exact hq.symm⟩
+      intro st' hst'
+      have : st = st' := by simpa using hst'
+      subst this; exact hq
+    | none =>
+      exact ⟨h, rfl, rfl, by rw [← h.1]; exact hq.symm⟩
+
+theorem ctInv_step (x : CTExt α) (s : CTState α) (o : CTOp α) (h : CTInv x s) : CTInv x (ctStep x s o).1 := by
+  cases o with
+  | setOrder v => simp only [ctStep]; split; exact h; exact ctInv_refresh x s _ h rfl
+  | setGrating v => simp only [ctStep]; split; exact h; exact ctInv_refresh x s _ h rfl
+  | setFocal v => simp only [ctStep]; split; exact h; exact ctInv_refresh x s _ h rfl
+  | setSpacing v => simp only [ctStep]; split; exact h; exact ctInv_refresh x s _ h rfl
+  | setAngle v => simp only [ctStep]; split; exact h; exact ctInv_refresh x s _ h rfl
+  | setAcc v => simp only [ctStep]; split; exact ctInv_refresh x s _ h rfl; exact h
+  | setMbpp v =>
+    simp only [ctStep]; split
+    · exact h
+    · refine ⟨h.1, h.2.1, ?_, h.2.2.2⟩
+      intro _ h'; simp at h'
+  | setName v =>
+    simp only [ctStep]
+    refine ⟨h.1, h.2.1, h.2.2.1, ?_⟩
+    intro _ h'; simp at h'
+  | getMin => simp only [ctStep]; have := (ctInv_fill x s h).1; split <;> simp_all
+  | getMax => simp only [ctStep]; have := (ctInv_fill x s h).1; split <;> simp_all
+  | getBins => simp only [ctStep]; have := (ctInv_fill x s h).1; split <;> simp_all
+  | getW2p => exact h
+  | getWavelengths => exact h
+  | getKwargs =>
+    simp only [ctStep]; split
+    · exact h
+    · refine ⟨h.1, h.2.1, h.2.2.1, ?_⟩
+      intro k hk; simp only [Option.some.injEq] at hk; exact hk.symm
+  | calibrate I a b =>
+    simp only [ctStep]; have := (ctInv_fill x s h).1
+    split
+    · split <;> simp_all
+    · simp_all
+
+theorem ctInv_run (x : CTExt α) (ops : List (CTOp α)) (s : CTState α) (h : CTInv x s) : CTInv x (ctRun x s ops) := by
+  induction ops generalizing s with
+  | nil => exact h
+  | cons o os ih => exact ih _ (ctInv_step x s o h)
+
+/-- what an observation returns is a function of the parameters alone, in every state satisfying the invariant -/
+theorem ct_obs_of_inv (x : CTExt α) (s : CTState α) (o : CTOp α) (h : CTInv x s) :
+    (ctStep x s o).2 = (ctStep x (ctFresh x s.p) o).2 := by
+  have hf := ctInv_fill x s h
+  have hf' := ctInv_fill x (ctFresh x s.p) (ctInv_fresh x s.p)
+  have e : (ctFill x s).2 = (ctFill x (ctFresh x s.p)).2 := by rw [hf.2.2.2, hf'.2.2.2]; rfl
+  have ew : (ctFill x s).1.w2p = (ctFill x (ctFresh x s.p)).1.w2p := by rw [hf.2.2.1, hf'.2.2.1, h.1]; rfl
+  cases o with
+  | setOrder v => simp only [ctStep]; split <;> rfl
+  | setGrating v => simp only [ctStep]; split <;> rfl
+  | setFocal v => simp only [ctStep]; split <;> rfl
+  | setSpacing v => simp only [ctStep]; split <;> rfl
+  | setAngle v => simp only [ctStep]; split <;> rfl
+  | setAcc v => simp only [ctStep]; split <;> rfl
+  | setMbpp v => simp only [ctStep]; split <;> rfl
+  | setName v => rfl
+  | getMin =>
+    simp only [ctStep]
+    rcases hA : ctFill x s with ⟨s1, r1⟩
+    rcases hB : ctFill x (ctFresh x s.p) with ⟨s2, r2⟩
+    rw [hA, hB] at e; simp only at e; subst e
+    cases r1 <;> rfl
+  | getMax =>
+    simp only [ctStep]
+    rcases hA : ctFill x s with ⟨s1, r1⟩
+    rcases hB : ctFill x (ctFresh x s.p) with ⟨s2, r2⟩
+    rw [hA, hB] at e; simp only at e; subst e
+    cases r1 <;> rfl
+  | getBins =>
+    simp only [ctStep]
+    rcases hA : ctFill x s with ⟨s1, r1⟩
+    rcases hB : ctFill x (ctFresh x s.p) with ⟨s2, r2⟩
+    rw [hA, hB] at e; simp only at e; subst e
+    cases r1 <;> rfl
+  | getW2p => simp only [ctStep]; rw [h.1]; rfl
+  | getWavelengths => simp only [ctStep]; rw [h.2.1]; rfl
+  | getKwargs =>
+    simp only [ctStep, ctFresh]
+    cases hk : s.kwargs with
+    | some k => simp only; rw [h.2.2.2 k hk]
+    | none => rfl
+  | calibrate I a b =>
+    simp only [ctStep]
+    rcases hA : ctFill x s with ⟨s1, r1⟩
+    rcases hB : ctFill x (ctFresh x s.p) with ⟨s2, r2⟩
+    rw [hA, hB] at e ew; simp only at e ew; subst e
+    cases r1 with
+    | none => rfl
+    | some st => simp only [ew]; cases calibrate I a b st.minW st.maxW s2.w2p <;> rfl
+
+/-- **settings and calibration follow the parameters, value level**: after any history of (accepted or rejected)
+assignments, reads and calibrations, whatever is observed next — spectral range, bin count, pixel edges, pixel centres,
+pipeline keywords, `calibrate` of any spectrum — is what a freshly constructed instrument with the final parameters
+returns; in particular no pixel width survives a change of a diffraction parameter -/
+theorem ct_history_eq_fresh (x : CTExt α) (p0 : CTParams α) (ops : List (CTOp α)) (o : CTOp α) :
+    (ctStep x (ctRun x (ctFresh x p0) ops) o).2
+      = (ctStep x (ctFresh x (ctRun x (ctFresh x p0) ops).p) o).2 :=
+  ct_obs_of_inv x _ o (ctInv_run x ops _ (ctInv_fresh x p0))
+
+/-- a rejected assignment (`ValueError`) leaves the instrument exactly as it was -/
+theorem ct_rejected_unchanged (x : CTExt α) (s : CTState α) (o : CTOp α)
+    (hset : match o with
+      | .setOrder _ | .setGrating _ | .setFocal _ | .setSpacing _ | .setAngle _ | .setAcc _ | .setMbpp _ | .setName _ => True
+      | _ => False)
+    (h : (ctStep x s o).2 = .valueError) : (ctStep x s o).1 = s := by
+  cases o <;> simp only [ctStep] at h ⊢ <;> first | (split at h <;> simp_all) | simp_all
+
+end machine
+
 /-! ## arithmetic -/
 
 variable {α : Type} [Field α] [LinearOrder α] [IsStrictOrderedRing α]
@@ -271,6 +416,99 @@ theorem trapezoid_spec (c w : α) (hw : 0 < w) :
   have h5 : (0.5 : α) = 1 / 2 := by norm_num
   simp only [trapezoid, filterOf, ValidFilter, h5]
   refine ⟨by ring, by ring, by ring, by linarith, by linarith⟩
+
+
+
+/-- **lower bound on the bin count, spectrometer**: the range is resolved with at least `min_bins_per_pixel` bins per
+pixel width — for every pixel of every array, hence for the narrowest one -/
+theorem bins_lower_bound [FloorRing α] {w2p : List (List α)} {mbpp : Nat} {s : Settings α}
+    (hv : ValidW2P w2p) (hm : 0 < mbpp) (h : spectralSettings Int.ceil w2p mbpp = some s) :
+    ∀ arr ∈ w2p, ∀ d ∈ diffs arr, (mbpp : α) * (s.maxW - s.minW) / d ≤ (s.bins : α) := by
+  obtain ⟨hb, hall⟩ := bin_width_bound hv hm h
+  intro arr harr d hd
+  have hd0 : 0 < d := validEdges_diffs_pos arr (hv arr harr) d hd
+  have hbα : (0 : α) < (s.bins : α) := by exact_mod_cast hb
+  have hmα : (0 : α) < mbpp := by exact_mod_cast hm
+  have := hall arr harr d hd
+  rw [div_le_div_iff₀ hbα hmα] at this
+  rw [div_le_iff₀ hd0]
+  linarith [mul_comm (s.bins : α) d]
+
+/-- **lower bound on the bin count, polychromator**, for arbitrary filter lists: at least `min_bins_per_window` bins per
+window width over the whole range — for every filter, hence for the narrowest window -/
+theorem poly_bins_lower_bound [FloorRing α] (inf : α) (hinf : 0 < inf) (fs : List (PFilter α)) (mbpw : Nat) (hm : 0 < mbpw)
+    (hne : fs ≠ []) (hv : ∀ f ∈ fs, ValidFilter f) :
+    let s := polySettings Int.ceil inf fs mbpw
+    ∀ f ∈ fs, (mbpw : α) * (s.maxW - s.minW) / f.window ≤ (s.bins : α) := by
+  intro s f hf
+  obtain ⟨hb, hall⟩ := poly_bin_width_bound inf hinf fs mbpw hm hne hv
+  have hw : 0 < f.window := (hv f hf).2
+  have hbα : (0 : α) < (s.bins : α) := by exact_mod_cast hb
+  have hmα : (0 : α) < mbpw := by exact_mod_cast hm
+  have := hall f hf
+  rw [div_le_div_iff₀ hbα hmα] at this
+  rw [div_le_iff₀ hw]
+  linarith [mul_comm (s.bins : α) f.window]
+
+/-- **a filter's range does not depend on the order in which its wavelengths are tabulated** -/
+theorem filterOfTab_perm (ws ws' : List α) (h : ws.Perm ws') : filterOfTab ws = filterOfTab ws' := by
+  unfold filterOfTab; rw [sorted_eq_of_perm ws ws' h]
+
+/-- … it is `[min, max]` of the tabulated wavelengths, both attained, the window is their difference, and any non-empty
+table yields a filter -/
+theorem filterOfTab_spec (ws : List α) :
+    (ws ≠ [] → ∃ f, filterOfTab ws = some f) ∧
+    ∀ f, filterOfTab ws = some f →
+      f.minW ∈ ws ∧ f.maxW ∈ ws ∧ f.window = f.maxW - f.minW ∧ ∀ w ∈ ws, f.minW ≤ w ∧ w ≤ f.maxW := by
+  have hp := List.mergeSort_perm ws (fun a b => decide (a ≤ b))
+  have hs : (ws.mergeSort (fun a b => decide (a ≤ b))).Pairwise (fun a b => decide (a ≤ b) = true) :=
+    List.pairwise_mergeSort (fun a b c h1 h2 => by simp at *; exact le_trans h1 h2)
+      (fun a b => by simp; exact le_total a b) ws
+  constructor
+  · intro hne
+    unfold filterOfTab
+    have : ws.mergeSort (fun a b => decide (a ≤ b)) ≠ [] := by
+      intro h0; rw [h0] at hp; exact hne (List.Perm.eq_nil hp.symm)
+    cases hsrt : ws.mergeSort (fun a b => decide (a ≤ b)) with
+    | nil => exact absurd hsrt this
+    | cons a t => simp only [List.head?_cons]; rw [List.getLast?_eq_some_getLast (by simp)]; exact ⟨_, rfl⟩
+  · intro f hf
+    unfold filterOfTab at hf
+    generalize hsrt : ws.mergeSort (fun a b => decide (a ≤ b)) = srt at hf hp hs
+    cases srt with
+    | nil => simp at hf
+    | cons a t =>
+      have hl : (a :: t).getLast? = some ((a :: t).getLast (by simp)) := List.getLast?_eq_some_getLast (by simp)
+      simp only [List.head?_cons, hl, Option.some.injEq] at hf
+      subst hf
+      have hmem : ∀ w, w ∈ ws ↔ w ∈ a :: t := fun w => (hp.mem_iff).symm
+      have hlast_mem : (a :: t).getLast (by simp) ∈ a :: t := List.getLast_mem _
+      refine ⟨(hmem _).2 (by simp [filterOf]), (hmem _).2 (by simpa [filterOf] using hlast_mem), rfl, ?_⟩
+      intro w hw
+      have hw' := (hmem w).1 hw
+      simp only [filterOf]
+      constructor
+      · rcases List.mem_cons.mp hw' with rfl | hw''
+        · exact le_refl _
+        · have := (List.pairwise_cons.mp hs).1 w hw''; simp at this; exact this
+      · -- every element is ≤ the last one of a sorted list
+        have key : ∀ (l : List α) (hne : l ≠ []), l.Pairwise (fun a b => decide (a ≤ b) = true) →
+            ∀ w ∈ l, w ≤ l.getLast hne := by
+          intro l
+          induction l with
+          | nil => intro hne; exact absurd rfl hne
+          | cons b r ih =>
+            intro hne hpw w hw
+            cases r with
+            | nil => simp at hw; subst hw; simp
+            | cons c r' =>
+              rw [List.getLast_cons (by simp)]
+              have hpw' := List.pairwise_cons.mp hpw
+              rcases List.mem_cons.mp hw with rfl | hw'
+              · have h1 : w ≤ c := by simpa using hpw'.1 c (by simp)
+                exact h1.trans (ih (by simp) hpw'.2 c (by simp))
+              · exact ih (by simp) hpw'.2 w hw'
+        exact key (a :: t) (by simp) hs w hw'
 
 
 /-! ### Czerny-Turner -/
@@ -506,6 +744,25 @@ example : 0 < ctResolution Real.sqrt (4 / 5 : ℝ) ((3 / 5) / (4 / 5)) (1 / 500)
 example : (fun s : Settings ℚ => (s.minW, s.maxW, s.bins))
     (polySettings Int.ceil 1000000 [trapezoid 400 6, trapezoid 700 8] 10) = (397, 704, 512) := by
   norm_num [polySettings, trapezoid, filterOf, pmin, pmax]
+
+
+/-- non-vacuity of the new statements -/
+example : filterOfTab [658, 654, (656 : ℚ)] = filterOfTab [654, 656, 658] :=
+  filterOfTab_perm _ _ (by decide)
+
+example : ∃ f, filterOfTab [658, 654, (656 : ℚ)] = some f ∧ ∀ w ∈ [658, 654, (656 : ℚ)], f.minW ≤ w ∧ w ≤ f.maxW := by
+  obtain ⟨f, hf⟩ := (filterOfTab_spec [658, 654, (656 : ℚ)]).1 (by simp)
+  exact ⟨f, hf, ((filterOfTab_spec _).2 f hf).2.2.2⟩
+
+/-- a rejected assignment: non-positive grating -/
+example (x : CTExt ℚ) (s : CTState ℚ) : (ctStep x s (.setGrating (-1))).2 = .valueError ∧ (ctStep x s (.setGrating (-1))).1 = s := by
+  constructor <;> simp [ctStep]
+
+/-- a history on which the theorem says something: the cached settings are dropped by `setGrating` -/
+example (x : CTExt ℚ) (p : CTParams ℚ) :
+    (ctRun x (ctFresh x p) [.getBins, .setGrating 2]).settings = none ∧
+    (ctRun x (ctFresh x p) [.getBins, .setGrating 2]).p.grating = 2 := by
+  constructor <;> norm_num [ctRun, ctStep, ctRefresh]
 
 /-- a protocol in which `Covered` holds and one in which it fails (the witness history is stale) -/
 example : Inval.Covered (⟨fun _ => [0], fun _ => [0]⟩ : Inval.Proto (Fin 1) (Fin 1)) := by
